@@ -181,6 +181,41 @@ async fn handles<T: Keyed>(ctx: Ctx, tname: &'static str, reliable: bool) {
             ctx.violation(format!("{tname}/reader-handle-differs-from-writer/{how}"), format!("key {k}: writer assigned {hw:?}, reader derived {:?}", s.sample_info.instance_handle));
         }
     }
+    // wire (C12): every key hash dust-dds puts into the inline QoS of a user DATA submessage is the handle of one of the
+    // written instances, and every single-DATA sample carries one
+    let (mut with_hash, mut without_hash) = (0, 0);
+    let hashes: Vec<Vec<u8>> = crate::sim::with(|wd| {
+        let mut v = vec![];
+        for (_, src, bytes, _) in wd.net.sent_log.iter() {
+            if *src != 0 {
+                continue;
+            }
+            for sub in crate::wire::parse(bytes).subs {
+                if sub.id == crate::wire::DATA && crate::wire::is_user_entity(&sub.writer) {
+                    match sub.inline_qos.iter().find(|(pid, _)| *pid == 0x0070) {
+                        Some((_, h)) => {
+                            with_hash += 1;
+                            v.push(h.clone());
+                        }
+                        None => without_hash += 1,
+                    }
+                }
+            }
+        }
+        v
+    });
+    ctx.count("wire_data_with_key_hash", with_hash);
+    ctx.count("wire_data_without_key_hash", without_hash);
+    let handles: Vec<[u8; 16]> = writer_handle.values().map(|h| <[u8; 16]>::from(*h)).collect();
+    for h in &hashes {
+        if !handles.iter().any(|x| x.as_slice() == h.as_slice()) {
+            ctx.violation(format!("{tname}/wire-key-hash-is-not-a-writer-handle"), format!("PID_KEY_HASH {h:02x?} sent, writer handles {handles:02x?}"));
+            break;
+        }
+    }
+    if with_hash == 0 {
+        ctx.violation(format!("{tname}/no-key-hash-on-the-wire"), "no user DATA submessage carried PID_KEY_HASH (the small samples are expected to)");
+    }
     // key-only messages: dispose carries the serialized key, the reader must map it to the same instance
     for key in 0..3usize {
         let s = T::make(key, 3, 0);
@@ -196,11 +231,19 @@ async fn handles<T: Keyed>(ctx: Ctx, tname: &'static str, reliable: bool) {
 }
 
 pub fn c11(_args: &Args) -> Vec<Scenario> {
+    scenarios("C11")
+}
+
+pub fn c12(_args: &Args) -> Vec<Scenario> {
+    scenarios("C12")
+}
+
+fn scenarios(id: &'static str) -> Vec<Scenario> {
     let mut v = vec![];
     macro_rules! ty {
         ($t:ty, $name:expr) => {
             for reliable in [true, false] {
-                v.push(Scenario::new(format!("C11.e2e[{},reliable={reliable}]", $name), 0, move |ctx| handles::<$t>(ctx, $name, reliable)).cfg(|c| {
+                v.push(Scenario::new(format!("{id}.e2e[{},reliable={reliable}]", $name), 0, move |ctx| handles::<$t>(ctx, $name, reliable)).cfg(|c| {
                     c.fragment_size = 64;
                     c.horizon_ms = 30_000;
                 }));
